@@ -3,6 +3,7 @@ import Proofs.Parse
 import Proofs.NameText
 import Proofs.NameWire
 import Proofs.ParseOffsets
+import Proofs.WireParser
 /-!
 # C04 — untrusted wire or text input only ever raises the library's own errors
 
@@ -226,5 +227,64 @@ theorem recorded_offsets_inside (w : Bytes) (o : ReadOpts) (c : List Nat) (errs 
 /-- non-vacuity: a 12-octet header with all counts zero is read cleanly in both modes -/
 example : readMsg [0,1,0,0,0,0,0,0,0,0,0,0] { cont := true, ignoreTrailing := false, questionOnly := false }
     = .message [0,0,0,0] [] := by decide
+
+/-! ## `dns.wirebase.Parser`: the bounds discipline under every wire parser -/
+
+open Model.WP in
+/-- **No out-of-bounds access, for every parsing routine.**  Whatever sequence of `get_bytes`,
+`get_counted_bytes`, `get_remaining`, `seek`, `get_name` calls, nested `with restrict_to(..)` /
+`with restore_furthest()` blocks and `try … except FormError` handlers a routine is made of, started on
+`Parser(wire, current)`: every byte string handed out is a slice `wire[a : a+n]` with `a + n ≤ len(wire)`
+(so it has the requested length — no short read, hence no `struct.error`/`IndexError` downstream), and when
+the routine ends — normally or by exception — `end` is `len(wire)` again (every `restrict_to` restored it). -/
+theorem parser_window (w : Bytes) (current : Nat) (p : P) (prog : Prog) (h : mk w current = some p) :
+    (exec w p prog).p.endp = w.length ∧
+    ∀ a n, Out.bytes a n ∈ (exec w p prog).outs → a + n ≤ w.length := by
+  unfold mk at h
+  split at h
+  · simp at h
+  · simp at h; subst h
+    have := exec_window w prog ⟨current, w.length, current⟩
+    exact ⟨this.1, this.2⟩
+
+open Model.WP in
+/-- **Only FormError.**  A routine written in the fragment of the API that the library uses outside
+`get_name` (no raw `seek`, no `restore_furthest` of its own; forward seeks allowed) ends with a value or with
+FormError, never with the `assert size >= 0` of `get_bytes` failing, and it leaves the parser with
+`furthest ≤ current ≤ end`. -/
+theorem parser_lib_only_form_error (w : Bytes) (current : Nat) (p : P) (prog : Prog)
+    (h : mk w current = some p) (hl : Lib prog) :
+    ((exec w p prog).o = .ok ∨ (exec w p prog).o = .formError) ∧ Disc (exec w p prog).p := by
+  unfold mk at h
+  split at h
+  · simp at h
+  · rename_i hc
+    simp at h; subst h
+    have hd : Disc ⟨current, w.length, current⟩ := by unfold Disc; simp only; omega
+    have := exec_disc w prog _ hl hd
+    refine ⟨?_, this.1⟩
+    cases ho : (exec w ⟨current, w.length, current⟩ prog).o with
+    | ok => left; rfl
+    | formError => right; rfl
+    | assertion => exact absurd ho this.2
+
+open Model.WP in
+/-- The `Lib` hypothesis is needed (and the model can exhibit why): through the raw API — read 6 octets, seek
+back to 0, restrict to 2 octets, `restore_furthest` — `current` ends up beyond the restricted `end`,
+`remaining()` is negative and `get_remaining()` trips the assertion.  (Replayed on the implementation by the
+correspondence check; no library code path does this.) -/
+example : (exec [1,2,3,4,5,6,7,8] ⟨0, 8, 0⟩
+    (.prim (.getBytes 6) (.prim (.seek 0) (.restrict 2 (.restoreFurthest .done (.prim .getRemaining .done)) .done)))).o
+    = .assertion := by decide
+
+open Model.WP in
+/-- non-vacuity: a record-like routine (name, fixed octets, a restricted body read to its end) is in the
+fragment; a routine of the same shape with a counted string in place of the name succeeds on a real wire -/
+example : Lib (.prim .getName (.prim (.getBytes 2) (.restrict 4 (.prim .getRemaining .done) .done))) ∧
+    (exec [1,97,0, 0,1, 10,0,0,1] ⟨0, 9, 0⟩
+      (.prim (.getCounted 1) (.prim (.getBytes 3) (.restrict 4 (.prim .getRemaining .done) .done)))).o = .ok := by
+  constructor
+  · simp [Lib]
+  · decide
 
 end C04
